@@ -541,7 +541,21 @@ func (obsWorld) Exec(prop string, t *Trace) *Result {
 			}
 		}
 	}
+	type heldPtr struct {
+		p    *[]byte
+		snap []byte
+		at   int
+		what string
+	}
+	var heldPtrs []heldPtr
 	checkAll := func(step int, what string) {
+		for _, h := range heldPtrs {
+			if h.p != nil && !bytes.Equal(*h.p, h.snap) {
+				res.violate("C18", "earlier-result-changed", "", step, "the value behind the pointer returned by %s at step %d changed after a later read-side call (%s)\n was: %x\n now: %x", h.what, h.at, what, h.snap, *h.p)
+				heldPtrs = nil
+				break
+			}
+		}
 		for _, h := range heldEnc {
 			if !bytes.Equal(h.ret, h.snap) {
 				res.violate("C18", "earlier-encoding-changed", "", step, "bytes returned by %s at step %d were modified by a later read-side call (%s): encoding results must be stable\n was: %x\n now: %x", h.what, h.at, what, h.snap, h.ret)
@@ -581,6 +595,21 @@ func (obsWorld) Exec(prop string, t *Trace) *Result {
 			shape += op.S + ","
 			if r1 != r2 {
 				res.violate("C18", "repeated-call-differs", "", i, "%s on object %d gave two different results back to back:\n   1: %s\n   2: %s", op.S, op.A, r1, r2)
+			}
+			if l.ev != nil && l.ev.Claims != nil && (op.S == "ev.instid" || op.S == "ev.implid") {
+				func() {
+					defer func() { _ = recover() }()
+					var p *[]byte
+					if op.S == "ev.instid" {
+						p = l.ev.GetInstanceID()
+					} else {
+						p = l.ev.GetImplementationID()
+					}
+					if p != nil {
+						heldPtrs = append(heldPtrs, heldPtr{p: p, snap: append([]byte{}, (*p)...), at: i, what: op.S})
+						res.Probes["held_pointers"]++
+					}
+				}()
 			}
 			if l.claims != nil && (op.S == "enc.cbor" || op.S == "enc.json" || op.S == "venc.cbor" || op.S == "venc.json") {
 				// keep the very slice an encoder hands out
